@@ -143,7 +143,7 @@ func VpC09Macros() {
 		"SecRule ARGS \"@rx ^[xy]$\" \"id:2,phase:1,pass,setvar:tx.m_%{matched_var}=+1,setvar:tx.last=%{matched_var_name},setvar:tx.rid=%{rule.id}\"\n" +
 		"SecAction \"id:3,phase:1,pass,setvar:tx.d=1,setvar:!tx.d,setvar:tx.e=%{tx.d}\"\n" +
 		// arithmetic with macro operands, including a negative one and a zero
-		"SecAction \"id:4,phase:1,pass,setvar:tx.neg=-4,setvar:tx.zero=0,setvar:tx.p=10,setvar:tx.p=+%{tx.neg},setvar:tx.q=10,setvar:tx.q=-%{tx.neg},setvar:tx.r=10,setvar:tx.r=+%{tx.zero},setvar:tx.t=-3,setvar:tx.t=+5\"\n"
+		"SecAction \"id:4,phase:1,pass,setvar:tx.neg=-4,setvar:tx.zero=0,setvar:tx.p=10,setvar:tx.p=+%{tx.neg},setvar:tx.q=10,setvar:tx.q=-%{tx.neg},setvar:tx.r=10,setvar:tx.r=+%{tx.zero},setvar:tx.t=-3,setvar:tx.t=+5,setvar:tx.u=5,setvar:tx.u=%{tx.neg}\"\n"
 	waf := vpBuild("c09macros", conf)
 	tx := waf.NewTransaction()
 	p := vp.Choice("nargs", vp.Param("ARGS", 3)+1)
@@ -180,6 +180,8 @@ func VpC09Macros() {
 	vp.Assert(get("q") == "14", "setvar:tx.q=-%{tx.neg} with tx.neg=-4 did not subtract the (negative) value")
 	vp.Assert(get("r") == "10", "setvar:tx.r=+%{tx.zero} changed the counter")
 	vp.Assert(get("t") == "2", "+5 on a negative current value is wrong")
+	// an assignment stays an assignment whatever the macro expands to
+	vp.Assert(get("u") == "-4", "setvar:tx.u=%{tx.neg} with tx.neg=-4 did not assign the value (it was applied as a decrement)")
 	vp.Assert(get("d") == "<unset>", "setvar:!tx.d did not delete the variable")
 	vp.Assert(get("e") != "1", "macro naming a deleted variable expanded to the stale value")
 	tx.ProcessLogging()
